@@ -205,7 +205,28 @@ func c13SSE(r R, c c13Completion) string {
 			first["function"].(map[string]any)["arguments"] = argPieces[0]
 			argPieces = argPieces[1:]
 		}
-		fr = append(fr, frag{idx, first})
+		if !c.SameIndex && !c.Interleave && first["function"].(map[string]any)["arguments"] == "" && r.Chance(200) && len(p.Name) >= 2 && len(p.ID) >= 2 {
+			// the statement's "tool name/id/argument split points": the identifying fields of one call, too, may be
+			// cut into contiguous fragments (the first of them opens the call)
+			fn := first["function"].(map[string]any)
+			switch r.Pick(3) {
+			case 0: // name cut in two
+				k := 1 + r.Pick(len(p.Name)-1)
+				fn["name"] = p.Name[:k]
+				fr = append(fr, frag{idx, first}, frag{idx, map[string]any{"index": idx, "function": map[string]any{"name": p.Name[k:]}}})
+			case 1: // id first, name in the next fragment
+				delete(fn, "name")
+				fr = append(fr, frag{idx, first}, frag{idx, map[string]any{"index": idx, "function": map[string]any{"name": p.Name}}})
+			default: // id cut in two
+				k := 1 + r.Pick(len(p.ID)-1)
+				first["id"] = p.ID[:k]
+				fr = append(fr, frag{idx, first}, frag{idx, map[string]any{"index": idx, "id": p.ID[k:], "function": map[string]any{}}})
+			}
+			first = nil
+		}
+		if first != nil {
+			fr = append(fr, frag{idx, first})
+		}
 		for _, a := range argPieces {
 			fr = append(fr, frag{idx, map[string]any{"index": idx, "function": map[string]any{"arguments": a}}})
 		}
